@@ -62,6 +62,7 @@ def run(report, db, tier):
     r1(report, db, cg, S, type_ci, packet_ci)
     r2(report, db, cg, S, M, type_ci, packet_ci)
     r3(report, db, cg, M, type_ci, packet_ci)
+    r7(report, db, cg, M)
     R4 = report.rule('R15.4', 'cipher wrappers are single pass-through '
                      'updates: an empty read stays empty')
     shared.wrapper_passthrough_ps(report, R4, db)
@@ -250,6 +251,47 @@ def r2(report, db, cg, S, M, type_ci, packet_ci):
     else:
         raise AnalysisError('read_packet: decode / return not found',
                             rp.node, rel(rp.path))
+
+
+def r7(report, db, cg, M):
+    """'terminates and reports an error': the end of the stream found by
+    read_packet leaves the read loop as an exception -- nothing inside _run
+    (or the helpers it is split into) catches it and goes on or returns."""
+    from .. import pathsum
+    R = report.rule('R15.7', 'the end of the stream reaches the thread '
+                    'wrapper: an exception of read_packet is not taken by a '
+                    'handler inside the read loop that then ends the thread '
+                    'quietly')
+    run_ = M.method(M.thread, '_run')
+    rp = M.method(M.reactor, 'read_packet')
+    S = pathsum.PathSum(db, cg, inline_pred=pathsum.known_unit_pred())
+    n = 0
+    bad = None
+    for p in S.run(run_):
+        reads = [e for e in p.flat(('call',)) if e.calls(rp) or
+                 e.method() == 'read_packet']
+        for e in reads:
+            n += 1
+            caught = [x for x in p.notes if x[0] == 'caught'
+                      and x[3] is e.node]
+            if caught and not (p.raises and len(p.outcome) == 3):
+                bad = bad or (p, e, caught[0])
+    if not n:
+        raise AnalysisError('_run: no call of read_packet found', run_.node,
+                            rel(run_.path))
+    if bad:
+        p, e, c = bad
+        report.violation(
+            R, 'eof:swallowed', run_.path, c[1] if isinstance(
+                c[1], ast.AST) else e.node, run_.qualname,
+            'an exception raised by read_packet (the end of the stream) is '
+            'caught inside the read loop and the thread then %s [%s]: it '
+            'terminates without any error being dispatched or recorded'
+            % ('returns' if p.returns else 'goes on', p.cond_text()[:200]))
+    else:
+        report.ok(R, 'no handler inside _run takes read_packet\'s '
+                  'exceptions and ends quietly (%d read sites on the paths)'
+                  % n)
 
 
 def r3(report, db, cg, M, type_ci, packet_ci):
